@@ -18,6 +18,7 @@ def run(ctx):
     accept.rule_certificate_from_maximal_state(ctx)
     dynalloc.rule_id_indexed_vectors(ctx)
     dyn.rule_cached_witness_consistent(ctx)
+    dyn.rule_cache_answer_polarity(ctx)
     dyncnf.rule_dynamic_variable_registration(ctx)
     dyncnf.rule_removal_cleans_the_tables(ctx)
     from . import dyn as _dyn
